@@ -12,7 +12,7 @@
 From Coq Require Import List NArith ZArith Bool Strings.String Lia.
 From V Require Import Base.Bytes Base.Res Gen.StrLeafGen Gen.Consts Gen.Special Model.Special
      Model.Scan Model.Strings Model.Entity Model.LinkUrl Model.AutolinkLeaf Model.Spx Model.Ast Model.Inlines
-     Proofs.InlinesProofs.
+     Proofs.InlinesProofs Proofs.InlinesTotalAutolink.
 Import ListNotations.
 Local Open Scope list_scope.
 
@@ -490,15 +490,15 @@ Ltac fk :=
   repeat split; auto; try lia.
 
 Lemma done_push s1 s2 n :
-  keeps s1 s2 -> pos s1 < pos s2 -> keeps s1 (fst (push_item s2 n)) /\ pos s1 <= pos (fst (push_item s2 n)).
-Proof. unfold keeps. cbn [push_item fst bt scanned pos set_sibs]. intros [A B] C. repeat split; auto. lia. Qed.
+  keeps s1 s2 -> pos s1 < pos s2 -> keeps s1 (fst (push_item s2 n)) /\ pos s1 < pos (fst (push_item s2 n)).
+Proof. unfold keeps. cbn [push_item fst bt scanned pos set_sibs]. intros [A B] C. repeat split; auto. Qed.
 
-(* parse_inline: the backtick arm, or an arm that leaves the table alone and does not move backwards *)
+(* parse_inline: the backtick arm, or an arm that leaves the table alone and moves forward *)
 Lemma parse_inline_cases memo s s' :
   parse_inline memo o u inp lo start_line refmap maxref s = Ok (Some s') ->
   (bq (pos s) = true /\
    exists off s2 n, handle_backticks memo inp lo (set_lineoff s off) = Ok (s2, n) /\ s' = fst (push_item s2 n))
-  \/ (keeps s s' /\ pos s <= pos s').
+  \/ (keeps s s' /\ pos s < pos s').
 Proof.
   intro H. unfold parse_inline in H.
   destruct (peek inp (pos s)) as [c|] eqn:Ec; [|discriminate]. unfold peek in Ec.
@@ -506,7 +506,7 @@ Proof.
   remember (set_lineoff s off) as s1 eqn:Hs1.
   assert (keeps s s1 /\ pos s1 = pos s) as Hk by (subst s1; split; [split|]; reflexivity).
   cut ((bq (pos s1) = true /\ exists s2 n, handle_backticks memo inp lo s1 = Ok (s2, n) /\ s' = fst (push_item s2 n))
-       \/ (keeps s1 s' /\ pos s1 <= pos s')).
+       \/ (keeps s1 s' /\ pos s1 < pos s')).
   { destruct Hk as [[K1 K2] K3].
     intros [[Hb (s2 & n & A & B)]|[[A1 A2] B]].
     - left. rewrite K3 in Hb. split; [exact Hb|]. exists off, s2, n. subst s1. auto.
@@ -524,15 +524,19 @@ Proof.
   destruct (beqb c x3c) eqn:Elt.
   { unfold append in H. inv. right. apply done_push; [eapply kp_pointy; eauto|eapply adv_pointy; eauto]. }
   destruct (beqb c x3a) eqn:Ecolon.
-  { right. inv1.
+  { right. apply beqb_eq in Ecolon. subst c. inv1.
     match type of H with match ?w with _ => _ end = _ => destruct w as [[s2 n]|] end.
-    - match goal with E : (if ?b then _ else _) = Ok _ |- _ => destruct b; [|discriminate E]; apply kp_autolink in E; destruct E as [[K1 K2] K3] end.
+    - match goal with E : (if ?b then _ else _) = Ok _ |- _ =>
+        destruct b; [|discriminate E]; pose proof (adv_autolink_url _ _ _ _ _ _ Ec E) as Hadv;
+        apply kp_autolink in E; destruct E as [[K1 K2] K3] end.
       inv; fk.
     - unfold text1, append in H. inv; fk. }
   match type of H with (if ?b then _ else _) = _ => destruct b eqn:Ew end.
   { right. inv1.
     match type of H with match ?w with _ => _ end = _ => destruct w as [[s2 n]|] end.
-    - match goal with E : handle_autolink_with _ _ _ = Ok _ |- _ => apply kp_autolink in E; destruct E as [[K1 K2] K3] end.
+    - match goal with E : handle_autolink_with _ _ _ = Ok _ |- _ =>
+        pose proof (adv_autolink_www _ _ _ _ _ _ E) as Hadv;
+        apply kp_autolink in E; destruct E as [[K1 K2] K3] end.
       inv; fk.
     - unfold text1, append in H. inv; fk. }
   match type of H with (if ?b then _ else _) = _ => destruct b eqn:Edel end.
@@ -571,11 +575,18 @@ Proof.
   destruct (beqb c x24) eqn:Edol.
   { unfold append in H. inv. right. apply done_push; [eapply kp_dollars; eauto|eapply adv_dollars; eauto]. }
   (* default arm *)
-  right. cbv zeta in H. unfold append in H.
-  inv; unfold keeps; cbn [push_item fst bt scanned pos set_pos set_sibs]; repeat split; auto;
-    match goal with E : slice _ _ ?a ?b = Ok _ |- _ => unfold slice in E;
-      destruct (Nat.ltb b a || Nat.ltb (len inp) b) eqn:Esl; [discriminate E|];
-      apply orb_false_iff in Esl; destruct Esl as [Esl _]; apply Nat.ltb_ge in Esl; exact Esl end.
+  assert (stops_at (io_fn o) (within s1) c = false) as Hstop.
+  { rewrite io_fn_tables. cbv zeta.
+    match goal with |- stops_at (io_fn ?o') ?w c = false =>
+      pose proof (stop_handled_bool (io_autolink o) (io_strikethrough o) (io_subscript o) (io_superscript o)
+                                    (io_underline o) (io_spoiler o) (io_smart o) w c) as Hh end.
+    cbv zeta in Hh.
+    destruct (stops_at _ _ c); [|reflexivity].
+    simpl in Hh. unfold handled in Hh. cbn [io_autolink io_strikethrough io_subscript io_superscript io_spoiler] in Hh.
+    rewrite E00, Enl, Ebt, Ebs, Eamp, Elt, Ecolon, Ehy, Epe, Eob, Ecb, Ebang, Edol in Hh.
+    rewrite Ew, Edel in Hh. discriminate. }
+  pose proof (find_special_gt (io_fn o) (within s1) inp (pos s1) c Ec Hstop) as Hgt.
+  right. cbv zeta in H. unfold append in H. inv; fk.
 Qed.
 
 Lemma parse_inline_keeps_inv memo s s' :
@@ -584,7 +595,7 @@ Proof.
   intros HI H. apply parse_inline_cases in H.
   destruct H as [[_ (off & s2 & n & A & ->)]|[[K1 K2] K3]].
   - apply handle_backticks_keeps_inv in A; [|exact HI]. exact A.
-  - unfold Inv. rewrite K1, K2. eapply Inv'_mono; [exact HI|exact K3].
+  - unfold Inv. rewrite K1, K2. eapply Inv'_mono; [exact HI|lia].
 Qed.
 
 Lemma parse_inline_memo_eq s :
